@@ -1924,6 +1924,13 @@ void move_object (object_t * item, object_t * dest) {
 
 #define MAX_VERB_BUFF 100
 
+/* The verb points into user_parser()'s own buffer (or a sentence) while an
+ * action runs. An error in the action leaves user_parser() by longjmp; this
+ * handler, unwound with the stack, keeps query_verb() from reading a dead frame. */
+static void forget_last_verb (void) {
+  last_verb = 0;
+}
+
 int user_parser (char *buff) {
   char verb_buff[MAX_VERB_BUFF];
   sentence_t *s;
@@ -2033,6 +2040,9 @@ int user_parser (char *buff) {
        */
       where = (current_object ? ORIGIN_EFUN : ORIGIN_DRIVER);
 
+      (++sp)->type = T_ERROR_HANDLER;
+      sp->u.error_handler = forget_last_verb;
+
       /* Push command args FIRST (correct LPC order) */
       if (s->flags & V_NOSPACE)
         copy_and_push_string (&buff[strlen (s->verb)]);
@@ -2065,6 +2075,7 @@ int user_parser (char *buff) {
 
       /* s may be dangling at this point */
 
+      sp--;			/* the error handler, not needed any more */
       command_giver = save_command_giver;
 
       last_verb = 0;
